@@ -189,10 +189,43 @@ def replay(ctx, path):
     import json, shutil
     obj = json.load(open(path))
     if obj["replay"].get("kind") == "condsys":
-        print("configuration:\n" + obj["replay"].get("conf", "")); print("requests:", obj["replay"].get("requests")); print("failing request:", obj["replay"].get("failing"))
-        print("observed:", obj["replay"].get("observed"), "language:", obj["replay"].get("expected"), "model:", obj["replay"].get("model"))
-        print("(re-run ./check C14 with the same VERIF_SEED to reproduce against the current tree)")
-        return 1
+        import condsys, srv
+        rp = obj["replay"]
+        print("configuration:\n" + rp.get("conf", "")); print("failing request:", rp.get("failing"), "observed then:", rp.get("observed"), "language:", rp.get("expected"), "model:", rp.get("model"))
+        if not rp.get("requests") or rp.get("expected") is None:
+            print("(no request list recorded: re-run ./check C14 with the same VERIF_SEED)"); return 1
+        # run the recorded configuration and requests again on the current tree and look at the failing request
+        s = srv.Server(ctx, "condreplay", 'extforward.forwarder = ("127.0.0.1" => "trust")\n' + rp["conf"], files={"/x/1": b"one", "/y/i.php": b"php", "/secret.inc": b"s", "/X/1": b"X"},
+                       modules=["mod_extforward", "mod_setenv"])
+        try:
+            s.start()
+        except vlib.BuildError as e:
+            print("configuration refused:", str(e)[-300:]); return 1
+        res = []
+        try:
+            conn = []
+            groups = []
+            for vals, last in rp["requests"]:
+                conn.append((vals, last))
+                if last: groups.append(conn); conn = []
+            if conn: groups.append(conn)
+            for g in groups:
+                c = s.connect(timeout=5.0); f = c.makefile("rb")
+                try:
+                    for vals, last in g:
+                        path = vals["url"] + ("?" + vals["querystring"] if vals["querystring"] else "")
+                        c.sendall(("GET %s HTTP/1.1\r\nHost: %s\r\nX-Forwarded-For: %s\r\n%s\r\n" % (path, vals["host"], vals["remoteip"], "Connection: close\r\n" if last else "")).encode())
+                        r = condsys.read_response(f)
+                        res.append(None if r is None else condsys.observe(r[1]))
+                finally:
+                    f.close(); c.close()
+        finally:
+            s.stop()
+        k = rp["failing"]; now = res[k] if k < len(res) else None
+        print("observed now:", now)
+        ok = now is not None and all(str(now[d]) == str(rp["expected"][d]) for d in rp["expected"])
+        import shutil; shutil.rmtree(ctx.scratch, ignore_errors=True)
+        return 0 if ok else 1
     case = obj["replay"].get("case")
     exe = vlib.cc_harness(ctx, "cond_h", link_srcs=LINK)
     model = vlib.model_driver("C14")
